@@ -24,7 +24,7 @@ META = {
                    "sorted before they are returned; absent names are misses on both sibling dictionaries and the name cache is read "
                    "only through the resolver; regex selection is a case-insensitive full match by default; rows[...], "
                    "rows.indices[...] and rows.mask[...] all resolve through Table._get_row_indices (tuples, on every path, left to "
-                   "right through _make_view); name spans are inclusive.",
+                   "right through _make_view); name spans are inclusive. Value ranges are decided by exact case analysis over given/absent bounds; span ends are resolved exactly when given, on the index column unless a step names another one; the occurrence lookup of `pattern::count` runs exactly when a count is given and the offset is added.",
     "decides": "structural necessary conditions of the selector semantics and of table order",
     "not_decided": "equality with a reference selector on all tables",
     "assumptions": ["numpy comparison/where semantics"],
